@@ -618,7 +618,7 @@ bytes_inst! {
 
 // UNKNOWN-ATTRIBUTES (RFC 8489 §14.9): list of 16-bit types
 #[kani::proof]
-#[kani::unwind(8)]
+#[kani::unwind(4)]
 #[kani::stub(alloc::fmt::format, nofmt)]
 fn attr_unknown_attributes() {
     use crate::attributes::stun::UnknownAttributes;
@@ -819,7 +819,7 @@ fn password_algorithms_rt<const P1: usize, const P2: usize, const N: usize>() {
 macro_rules! pa_inst {
     ($($name:ident = $f:ident($($a:expr),*);)*) => {$(
         #[kani::proof]
-        #[kani::unwind(10)]
+        #[kani::unwind(6)]
         #[kani::stub(alloc::fmt::format, nofmt)]
         fn $name() { $f::<$($a),*>(); }
     )*};
